@@ -974,13 +974,15 @@ func countNodes(n *node) int {
 
 type treeStats struct {
 	Tried, Accepted, Rejected, Panics, Skipped, SkippedAmbiguous, SkippedBig, LexDisagree int
-	Nodes                                                                                 int
+	Nodes, Derivable                                                                      int
 	Kinds                                                                                 map[string]int
 	ByOrigin                                                                              map[string]int
 }
 
 // one input: parse; if accepted, write its trace. Returns false if nothing was written.
-func treeTrace(w *tr.Writer, dict *bufio.Writer, tid int, src []byte, origin string, st *treeStats, maxNodes int) bool {
+// der: the input is an un-mutated program that a generator specification derives (JsGrammar accept case, ScopeSem program with verdict accepted,
+// PrinterGen program): only for those does property C03 say what the tree must be; everything else (test literals, mutations) is "other".
+func treeTrace(w *tr.Writer, dict *bufio.Writer, tid int, src []byte, origin string, der bool, st *treeStats, maxNodes int) bool {
 	st.Tried++
 	var a *js.AST
 	var err error
@@ -1030,7 +1032,7 @@ func treeTrace(w *tr.Writer, dict *bufio.Writer, tid int, src []byte, origin str
 		ids2, alt2, nl2 = tokIDs(in, t2)
 	}
 	w.Begin(tid)
-	w.Ev("Open", tr.E{"src": tr.Ints(src), "toks": ids, "alt": alt, "nl": nl, "toks2": ids2, "alt2": alt2, "nl2": nl2, "origin": origin})
+	w.Ev("Open", tr.E{"src": tr.Ints(src), "toks": ids, "alt": alt, "nl": nl, "toks2": ids2, "alt2": alt2, "nl2": nl2, "origin": origin, "der": der})
 	st.Nodes += emit(w, in, root, 0, st.Kinds)
 	w.Ev("Close", tr.E{})
 	w.End(true)
@@ -1040,6 +1042,9 @@ func treeTrace(w *tr.Writer, dict *bufio.Writer, tid int, src []byte, origin str
 	}
 	st.Accepted++
 	st.ByOrigin[origin]++
+	if der {
+		st.Derivable++
+	}
 	return true
 }
 
@@ -1248,6 +1253,7 @@ func openDict(path string) (*bufio.Writer, func()) {
 type inputT struct {
 	src    []byte
 	origin string
+	der    bool
 }
 
 func readInputsFile(path string, fn func([]byte)) {
@@ -1299,12 +1305,21 @@ func Tree(args []string) {
 	rnd := rand.New(rand.NewSource(*seed*7919 + 13))
 	var base []inputT
 	seen := map[string]bool{}
+	at := map[string]int{}
 	add := func(src []byte, origin string) {
-		if len(src) == 0 || seen[string(src)] {
+		der := origin == "jsgram" || origin == "scope" || origin == "printer"
+		if len(src) == 0 {
+			return
+		}
+		if seen[string(src)] {
+			if i, ok := at[string(src)]; ok && der && !base[i].der { // a test literal that a generator also derives
+				base[i].origin, base[i].der = origin, true
+			}
 			return
 		}
 		seen[string(src)] = true
-		base = append(base, inputT{src, origin})
+		at[string(src)] = len(base)
+		base = append(base, inputT{src, origin, der})
 	}
 	for _, lit := range lexers.HarvestLiterals(reg.Repo())["js"] {
 		add([]byte(lit), "harvest")
@@ -1385,7 +1400,7 @@ func Tree(args []string) {
 			continue
 		}
 		tid++
-		treeTrace(w, dict, tid, b.src, b.origin, st, *maxNodes)
+		treeTrace(w, dict, tid, b.src, b.origin, b.der, st, *maxNodes)
 		mr := rand.New(rand.NewSource(hash64(b.src) ^ *seed))
 		ms, ks := mutate(b.src, *nmut, mr)
 		for i, m := range ms {
@@ -1394,13 +1409,13 @@ func Tree(args []string) {
 			}
 			seen[string(m)] = true
 			tid++
-			if treeTrace(w, dict, tid, m, b.origin+"+"+ks[i], st, *maxNodes) {
+			if treeTrace(w, dict, tid, m, b.origin+"+"+ks[i], false, st, *maxNodes) {
 				mutKinds[ks[i]]++
 			}
 		}
 	}
 	w.Close()
-	json.NewEncoder(os.Stdout).Encode(map[string]interface{}{"suite": "jsgram", "mode": "tree", "harvested": nh, "base": len(base), "tried": st.Tried, "accepted": st.Accepted,
+	json.NewEncoder(os.Stdout).Encode(map[string]interface{}{"suite": "jsgram", "mode": "tree", "harvested": nh, "base": len(base), "tried": st.Tried, "accepted": st.Accepted, "accepted_derivable": st.Derivable,
 		"rejected_by_parse": st.Rejected, "panics": st.Panics, "not_recorded_budget": st.Skipped, "skipped_two_ambiguous_slashes": st.SkippedAmbiguous, "skipped_big": st.SkippedBig,
 		"lexer_alone_fails": st.LexDisagree, "nodes": st.Nodes, "traces": w.Traces, "events": w.Events, "kinds": st.Kinds, "by_origin": st.ByOrigin, "accepted_mutations": mutKinds,
 		"node_types": len(handledTypes)})
@@ -1458,7 +1473,7 @@ func TreeFile(args []string) {
 	tid := 0
 	readInputsFile(*in, func(b []byte) {
 		tid++
-		treeTrace(w, dict, tid, b, "file", st, 1<<30)
+		treeTrace(w, dict, tid, b, "file", false, st, 1<<30)
 		if *exp {
 			explain(b)
 		}
